@@ -460,21 +460,17 @@ func (c *Ctx) DerivesFromLocal(v ssa.Value, pred func(ssa.Value) bool, depth int
 	return rec(v, 0)
 }
 
-// A location is where the diff loop keeps a piece of its state: a captured or
-// local variable ("var:f1") or a field of its state object
-// ("field:fsutil.diffWalkState.lower").
+// A location is where the diff loop keeps a piece of its state: a local or
+// captured variable, or a field of its state object - named by the identity
+// of the memory cell (eng/cells.go), so that two cursors of one type are two
+// locations.
+var locProg *eng.Prog
+
 func locOfAddr(addr ssa.Value) string {
-	switch a := addr.(type) {
-	case *ssa.FreeVar:
-		return "var:" + a.Name()
-	case *ssa.Alloc:
-		if a.Comment != "" {
-			return "var:" + a.Comment
-		}
-	case *ssa.FieldAddr:
-		return "field:" + eng.FieldOwnerName(a.X.Type(), a.Field)
+	if locProg == nil {
+		return ""
 	}
-	return ""
+	return locProg.CellID(addr)
 }
 
 // loadLoc: v loads a location; "" otherwise.
@@ -490,50 +486,196 @@ func fromLoc(loc string) func(ssa.Value) bool {
 	return func(v ssa.Value) bool { return loc != "" && loadLoc(v) == loc }
 }
 
+// chanIdentity traces a channel value (seen through the given chain of helper
+// calls) back to the make(chan) it comes from: through helper parameters,
+// captured variables, and variables or state fields that are assigned that
+// one channel (and possibly nil, once it is drained).
+func chanIdentity(c *Ctx, v ssa.Value, stack []*ssa.Call, depth int) string {
+	if v == nil || depth > 10 {
+		return ""
+	}
+	ids := map[string]bool{}
+	for _, r := range eng.ResolveAllCtx(v, stack) {
+		id := ""
+		switch x := r.(type) {
+		case *ssa.MakeChan:
+			id = "chan " + c.pos(x) + " " + x.Name()
+		case *ssa.ChangeType:
+			id = chanIdentity(c, x.X, stack, depth+1)
+		case *ssa.FreeVar:
+			// captured by value through a MakeClosure in a helper: the binding
+			if mc := bindingSite(c, x); mc != nil {
+				for i, fv := range x.Parent().FreeVars {
+					if fv == x && i < len(mc.Bindings) {
+						id = chanIdentity(c, mc.Bindings[i], stack, depth+1)
+					}
+				}
+			}
+		case *ssa.UnOp:
+			if x.Op != token.MUL {
+				break
+			}
+			cell := c.P.CellIDCtx(x.X, stack)
+			if fv, isFV := x.X.(*ssa.FreeVar); isFV && cell == "" {
+				// a variable of a helper captured by a literal made in that helper
+				if mc := bindingSite(c, fv); mc != nil {
+					for i, f := range fv.Parent().FreeVars {
+						if f == fv && i < len(mc.Bindings) {
+							cell = c.P.CellIDCtx(mc.Bindings[i], stack)
+						}
+					}
+				}
+			}
+			var vals []ssa.Value
+			for _, st := range c.P.CellStores(cell) {
+				if k, isK := st.Val.(*ssa.Const); isK && k.IsNil() {
+					continue
+				}
+				vals = append(vals, st.Val)
+			}
+			if len(vals) == 1 {
+				id = chanIdentity(c, vals[0], stack, depth+1)
+			}
+		}
+		if id == "" {
+			return ""
+		}
+		ids[id] = true
+	}
+	if len(ids) != 1 {
+		return ""
+	}
+	for id := range ids {
+		return id
+	}
+	return ""
+}
+
+// bindingSite finds the one MakeClosure that creates the literal fv belongs to.
+func bindingSite(c *Ctx, fv *ssa.FreeVar) *ssa.MakeClosure {
+	lit := fv.Parent()
+	if lit == nil || lit.Parent() == nil {
+		return nil
+	}
+	var out *ssa.MakeClosure
+	n := 0
+	eng.InstrsShallow(lit.Parent(), func(in ssa.Instruction) {
+		if mc, ok := in.(*ssa.MakeClosure); ok && mc.Fn == ssa.Value(lit) {
+			out = mc
+			n++
+		}
+	})
+	if n != 1 {
+		return nil
+	}
+	return out
+}
+
 // walkerCells returns the locations of the pending entries fed from walker
-// a's and walker b's channel: the channel handed to a (b) is identified at the
-// call of a (b); the entry location is where the result of nextPath on that
-// channel - or on a field initialised from it - is stored.
+// a's and walker b's channel: the channel handed to a (b) is identified where
+// a (b) is called - in a literal of doubleWalkDiff or in a helper that builds
+// such a literal; the entry location is where the result of nextPath on that
+// channel is stored, per call site when the fetch is a helper shared by both
+// sides.
 func walkerCells(c *Ctx, loop *ssa.Function) (aCell, bCell string) {
+	locProg = c.P
 	dwd := c.P.Encloser(loop)
 	if dwd == nil {
 		return
 	}
-	chanOf := map[string]string{} // "a" -> location of the channel
-	for _, cl := range eng.Closures(dwd) {
-		for _, call := range eng.Calls(cl) {
-			n := c.P.CalleeName(call)
-			if n != "freevar:a" && n != "freevar:b" {
+	for c.P.Encloser(dwd) != nil {
+		dwd = c.P.Encloser(dwd)
+	}
+	chanOf := map[string]string{} // "a" -> identity of the channel handed to walker a
+	walkerCall := func(call ssa.CallInstruction, stack []*ssa.Call) {
+		// the callee: walker parameter a or b of doubleWalkDiff, captured or handed down
+		which := ""
+		cur := call.Common().Value
+		for step := 0; step < 8 && cur != nil; step++ {
+			if q, isP := cur.(*ssa.Parameter); isP && q.Parent() == dwd {
+				if n := c.P.ParamName(q); n == "a" || n == "b" {
+					which = n
+				}
+				break
+			}
+			next := ssa.Value(nil)
+			switch x := cur.(type) {
+			case *ssa.Parameter:
+				// a helper's parameter: the argument at the call we came through
+				if rs := eng.ResolveAllCtx(x, stack); len(rs) == 1 && rs[0] != cur {
+					next = rs[0]
+				}
+			case *ssa.FreeVar:
+				if mc := bindingSite(c, x); mc != nil {
+					for i, f := range x.Parent().FreeVars {
+						if f == x && i < len(mc.Bindings) {
+							next = mc.Bindings[i]
+						}
+					}
+				}
+			case *ssa.UnOp:
+				if x.Op != token.MUL {
+					break
+				}
+				// a captured parameter: the cell it was spilled to
+				switch ad := x.X.(type) {
+				case *ssa.FreeVar:
+					if root := c.P.Census().Root(ad); root != nil {
+						next = spilledParam(root)
+					}
+				case *ssa.Alloc:
+					next = spilledParam(ad)
+				}
+			}
+			if next == nil || next == cur {
+				break
+			}
+			cur = next
+		}
+		if which == "" {
+			return
+		}
+		for _, arg := range call.Common().Args {
+			if _, isChan := arg.Type().Underlying().(*types.Chan); !isChan {
 				continue
 			}
-			for _, a := range call.Common().Args {
-				if l := loadLoc(eng.Strip(a)); l != "" && strings.HasPrefix(l, "var:") {
-					chanOf[strings.TrimPrefix(n, "freevar:")] = l
-				}
+			if id := chanIdentity(c, arg, stack, 0); id != "" {
+				chanOf[which] = id
 			}
 		}
 	}
-	// a state field initialised from a channel variable stands for that channel
-	alias := map[string]string{}
-	eng.Instrs(loop, func(in ssa.Instruction) {
-		s, ok := in.(*ssa.Store)
-		if !ok {
+	scan := func(fn *ssa.Function) {
+		eng.InstrsCtx(fn, func(in ssa.Instruction, stack []*ssa.Call) {
+			if call, ok := in.(ssa.CallInstruction); ok && call.Common().StaticCallee() == nil && !call.Common().IsInvoke() {
+				walkerCall(call, stack)
+			}
+			// a literal built in a helper (walkInto(ctx, a, ch) returning func() error)
+			if mc, ok := in.(*ssa.MakeClosure); ok && len(stack) > 0 {
+				if lit, isF := mc.Fn.(*ssa.Function); isF {
+					for _, call := range eng.Calls(lit) {
+						if call.Common().StaticCallee() == nil && !call.Common().IsInvoke() {
+							walkerCall(call, stack)
+						}
+					}
+				}
+			}
+		})
+	}
+	scan(dwd)
+	for _, cl := range eng.Closures(dwd) {
+		scan(cl)
+	}
+	if chanOf["a"] == "" || chanOf["b"] == "" || chanOf["a"] == chanOf["b"] {
+		return
+	}
+	eng.InstrsCtx(loop, func(in ssa.Instruction, stack []*ssa.Call) {
+		cv, ok := in.(*ssa.Call)
+		if !ok || !c.P.IsCallTo(cv, "fsutil.nextPath") || len(cv.Call.Args) < 2 {
 			return
 		}
-		if fl := locOfAddr(s.Addr); strings.HasPrefix(fl, "field:") {
-			if vl := loadLoc(eng.Strip(s.Val)); vl != "" && (vl == chanOf["a"] || vl == chanOf["b"]) {
-				alias[fl] = vl
-			}
-		}
-	})
-	for _, call := range c.P.CallsTo(loop, "fsutil.nextPath") {
-		cv, ok := call.(*ssa.Call)
-		if !ok || len(cv.Call.Args) < 2 {
-			continue
-		}
-		ch := loadLoc(eng.Strip(cv.Call.Args[1]))
-		if a, ok := alias[ch]; ok {
-			ch = a
+		ch := chanIdentity(c, cv.Call.Args[1], stack, 0)
+		if ch == "" {
+			return
 		}
 		for _, r := range eng.Referrers(cv) {
 			e, ok := r.(*ssa.Extract)
@@ -541,20 +683,36 @@ func walkerCells(c *Ctx, loop *ssa.Function) (aCell, bCell string) {
 				continue
 			}
 			for _, r2 := range eng.Referrers(e) {
-				if s, ok := r2.(*ssa.Store); ok && s.Val == ssa.Value(e) {
-					if l := locOfAddr(s.Addr); l != "" {
-						if ch != "" && ch == chanOf["a"] {
-							aCell = l
-						}
-						if ch != "" && ch == chanOf["b"] {
-							bCell = l
-						}
-					}
+				s, ok := r2.(*ssa.Store)
+				if !ok || s.Val != ssa.Value(e) {
+					continue
+				}
+				l := c.P.CellIDCtx(s.Addr, stack)
+				if l == "" {
+					continue
+				}
+				if ch == chanOf["a"] {
+					aCell = l
+				}
+				if ch == chanOf["b"] {
+					bCell = l
 				}
 			}
 		}
-	}
+	})
 	return
+}
+
+// spilledParam: the parameter a captured-parameter cell was initialised from.
+func spilledParam(al *ssa.Alloc) ssa.Value {
+	for _, r := range eng.Referrers(al) {
+		if s, ok := r.(*ssa.Store); ok && s.Addr == ssa.Value(al) {
+			if q, isP := s.Val.(*ssa.Parameter); isP {
+				return q
+			}
+		}
+	}
+	return al
 }
 
 func r02_4(c *Ctx, rule string) {
